@@ -157,7 +157,7 @@ theorem Ty.memRT : ∀ (t : Ty), t.isZC = true → t.wf = true → ∀ v, t.wt v
           match fs, hwt with
           | [a], hwt =>
             simp only [Ty.wt] at hwt
-            have := Ty.memRT t hz hw.1.1 a hwt
+            have := Ty.memRT t hz hw.1.1.1 a hwt
             exact ⟨by simp only [Ty.toMem, Ty.sizeOf]; exact this.1, fun rest => by simp only [Ty.toMem, Ty.fromMem]; rw [this.2]⟩
           | [], hwt => simp [Ty.wt] at hwt
           | _ :: _ :: _, hwt => simp [Ty.wt] at hwt
